@@ -467,11 +467,11 @@ var c12WholeModel = porcupine.Model{
 }
 
 type weakObs struct {
-	kind       string // range | length
-	call, ret  int64
-	pairs      [][2]string
-	length     int
-	g          int
+	kind      string // range | length
+	call, ret int64
+	pairs     [][2]string
+	length    int
+	g         int
 }
 
 var c12Clock int64
@@ -550,7 +550,10 @@ func c12Concurrent(w *fw.W, idx int, r *fw.Rand) {
 				case "range":
 					call := now()
 					var pairs [][2]string
-					m.Range(func(k string, v *ds.VMValue) bool { pairs = append(pairs, [2]string{k, fmt.Sprint(rdInt(v))}); return true })
+					m.Range(func(k string, v *ds.VMValue) bool {
+						pairs = append(pairs, [2]string{k, fmt.Sprint(rdInt(v))})
+						return true
+					})
 					ret := now()
 					mu.Lock()
 					weak = append(weak, weakObs{kind: "range", call: call, ret: ret, pairs: pairs, g: g})
@@ -773,8 +776,9 @@ func c12Weak(ob weakObs, hist []porcupine.Operation, keys []string) string {
 
 func init() {
 	fw.Register(&fw.Prop{
-		ID:   "C12",
-		Race: true,
+		ID:      "C12",
+		Race:    true,
+		HangCPU: 600, // batches of up to 16 goroutines under the race detector
 		NCases: func(tier string) int {
 			a, b, c, d, _ := c12Dims(tier)
 			return a + b + c + d
@@ -796,7 +800,7 @@ func init() {
 		Floors: func(tier string) map[string]int64 {
 			return map[string]int64{"seq_exhaustive_histories": 80000, "seq_random_histories": 1000, "conc_histories": 1000, "conc_yield_events": 1000, "script_observations": 1000}
 		},
-		Rule: "sequential: every operation sequence up to the tier's length (4 quick / 6 thorough) over keys {a,b}, values {1,2}, 17 calls per step is enumerated (exhaustive for that sub-space) and compared call by call with a Go map; random sequences ≤60 ops over 4 keys biased to promotion/expunge; script-level len/truthiness/== of dicts; concurrent: recorded client-boundary histories (unique values) checked with porcupine per key or whole-map (with Clear), weak contract for concurrent Range/Length, quiescent contents re-read; worker built with -race. non-trivial = history with at least one write and ≥2 operations; distinct = hash of the operation list (concurrent: plus yield-point order)",
+		Rule:        "sequential: every operation sequence up to the tier's length (4 quick / 6 thorough) over keys {a,b}, values {1,2}, 17 calls per step is enumerated (exhaustive for that sub-space) and compared call by call with a Go map; random sequences ≤60 ops over 4 keys biased to promotion/expunge; script-level len/truthiness/== of dicts; concurrent: recorded client-boundary histories (unique values) checked with porcupine per key or whole-map (with Clear), weak contract for concurrent Range/Length, quiescent contents re-read; worker built with -race. non-trivial = history with at least one write and ≥2 operations; distinct = hash of the operation list (concurrent: plus yield-point order)",
 		Assumptions: []string{"concurrent Range and Length are only required to satisfy the weak (non-snapshot) contract documented for sync.Map", "race detector reports are counted from GORACE log files"},
 	})
 }
